@@ -66,6 +66,9 @@ PROBES = [
     ("undefined-after-define", [("p.mac", "v = 10\n.word v, w\n")]),
     # a file whose name starts with a tilde (device names look like that): found beside the source that names it, whatever was opened before
     ("tilde-path", [("p.mac", ".include \"~tilde\"\n.word tilde\ninsert_file \"~tilde\"\nmake_raw \"~outt\"\n")]),
+    # compound branch operands whose first number is a local label, for every kind of branch: the same reading every time
+    ("sob-fixup", [("p.mac", "1: nop\n sob r0, 1 + 2\n2: bne 2+2\n nop\n sob r3, 2+4\n br 1+2\n")]),
+    ("sob-plain", [("p.mac", "lp: nop\n sob r0, lp\n sob r1, .\n sob r2, lp + 2\n7: sob r4, 7\n")]),
     ("tilde-output", [("p.mac", "make_raw \"~outt\"\nmake_bin \"~Outb\"\n nop\n")]),
     ("tape-names", [("p.mac", "make_wav \"a.wav\", \"FIRST\"\nmake_wav \"b.wav\", \"SECOND\"\nmake_turbo_wav \"c.wav\", \"\"\nmake_wav \"d.wav\"\n .word 1, 2\n")]),
 ]
@@ -123,7 +126,8 @@ def observable(o, root):
         return os.path.relpath(p, root) if isinstance(p, str) and p.startswith(root) else p
     diags = []
     for e in o.events:
-        diags.append([e["sev"], e["id"], [[rel(s["file"]), s["start"], s["end"]] for s in e["spans"]]])
+        # (offsets and the printed 'file:line:col' form of each span)
+        diags.append([e["sev"], e["id"], [[rel(s["file"]), s["start"], s["end"], str(s.get("rs", "")).replace(root, "@R@")] for s in e["spans"]]])
     emitted = []
     for ent in (o.emitted or []):
         row = [ent[2], rel(ent[3])] + [a.hex() if isinstance(a, bytes) else a for a in ent[4:]]
@@ -149,8 +153,21 @@ def near_variant(rnd, files):
     import re as _re
     files = [[n, t] for n, t in files]
     f = rnd.choice(files)
-    how = rnd.choice(["string", "string", "string", "digit", "case", "filename"])
+    how = rnd.choice(["string", "string", "string", "digit", "case", "filename", "newline", "newline"])
     text = f[1]
+    if how == "newline":
+        # the same length, the line breaks elsewhere: a line break becomes a ';' or a blank, a blank becomes a line break
+        nl = [i for i, c in enumerate(text[:-1]) if c == "\n"]
+        sp = [i for i, c in enumerate(text) if c == " "]
+        if nl:
+            i = rnd.choice(nl)
+            text = text[:i] + rnd.choice([";", " "]) + text[i + 1:]
+            if sp and rnd.random() < 0.5:
+                j = rnd.choice(sp)
+                text = text[:j] + "\n" + text[j + 1:]
+            f[1] = text
+            return files
+        how = "string"
     if how == "string":
         spots = [m for m in _re.finditer(r"\"([^\"\n]+)\"", text)]
         if spots:
